@@ -18,12 +18,12 @@ CHECKS = {
         "technique": "container-kind (multiplicity) dataflow + CFG simulation on an integer grid against the RFC formula + abstract evaluation of small pure functions over enumerated finite / boundary domains with symbolic values (engine/minieval.py; fetcher / operation contracts in rules/fetcheval.py) (static)",
     },
     "C03": {
-        "text": "Every function that can be the walk's fetcher is shown to compare each returned OID with its predecessor position by position, strictly (three orderings), before returning; every fetch in the loop is covered by a handler that ends the walk normally in lenient mode and re-raises otherwise; the loop variable is renewed on every path. Termination and no-re-request follow from these premises (argument recorded in the evidence).",
+        "text": "Every function that can be the walk's fetcher is shown to compare each returned OID with its predecessor position by position, strictly (three orderings), before returning; every fetch in the loop is covered by a handler that ends the walk normally in lenient mode and re-raises otherwise; the loop variable is renewed on every path. Termination and no-re-request follow from these premises (argument recorded in the evidence). The continuation step itself is evaluated (a root is continued only while its last answer lies inside it by arcs, from that answer; shared with C01-R6), so a walk never continues a finished root from an OID another root already continued from.",
         "note": "Trusted: ast, the analyser, x690 OID ordering, finiteness of the OID universe the agent reveals. Not decided: the numeric request bound.",
         "technique": "ordering evaluation of guards + index-arithmetic evaluation of pairing + handler coverage simulation + abstract evaluation of small pure functions over enumerated finite / boundary domains with symbolic values (engine/minieval.py; nothing is imported or run) (static)",
     },
     "C04": {
-        "text": "Request construction (PDU class, one binding per OID in caller order, NULL / typed SET value after refusal), count checks decided on the fewer/equal/more orderings by CFG simulation, faithful positional extraction, established length before constant subscripts, and typed missing-object detection are decided for get/getnext/set and their multi variants. One genuine defect is recorded as known finding (public multigetnext truncation).",
+        "text": "Request construction (PDU class, one binding per OID in caller order, NULL / typed SET value after refusal), count checks decided on the fewer/equal/more orderings by CFG simulation, faithful positional extraction, established length before constant subscripts, and typed missing-object detection are decided for get/getnext/set and their multi variants. One genuine defect is recorded as known finding (public multigetnext truncation). Types of the package created without arguments (how x690 creates every decoded value) must keep the lazy-decoding sentinel (evaluated constructor, shared with C17-R7); bulkget must leave the caller's OID lists as they were (evaluated, in-place operators modelled).",
         "note": "Trusted: ast, the analyser. GETBULK bound is C02-R2, ids C07, error-status C08. Not decided: equality of returned values with the agent database.",
         "technique": "CFG simulation over count orderings + container-kind dataflow + callee length summaries + kind typing of isinstance operands + abstract evaluation of small pure functions over enumerated finite / boundary domains with symbolic values (engine/minieval.py; fetcher / operation contracts in rules/fetcheval.py) (static)",
     },
@@ -33,7 +33,7 @@ CHECKS = {
         "technique": "BER shape extraction with provenance + RFC table comparison + constant folding + abstract evaluation of small pure functions over enumerated finite / boundary domains with symbolic values (engine/minieval.py; nothing is imported or run) (static)",
     },
     "C06": {
-        "text": "Registration table of all SNMP types (class / tag / nature / signedness through the MRO, registry key collisions), unconditional import chain that triggers registration, and index/mask -> field maps of every decoder compared with the sibling encoder and the RFC tables (shape-level round trip).",
+        "text": "Registration table of all SNMP types (class / tag / nature / signedness through the MRO, registry key collisions), unconditional import chain that triggers registration, and index/mask -> field maps of every decoder compared with the sibling encoder and the RFC tables (shape-level round trip). The SNMPv3 encoders must emit every field as stored in the layout the decoders read (shared with C05-R4), so decode followed by encode reproduces the message.",
         "note": "Trusted: ast, the analyser, RFC tables. Not decided: value-level decoding over full ranges and all definite length forms (arithmetic inside x690).",
         "technique": "class-table evaluation + decoder index-map extraction + sibling encoder/decoder agreement + abstract evaluation of small pure functions over enumerated finite / boundary domains with symbolic values (engine/minieval.py; nothing is imported or run) (static)",
     },
@@ -49,12 +49,12 @@ CHECKS = {
         "technique": "CFG path simulation under concrete field scenarios + class-table evaluation + guard grid for tainted subscripts + abstract evaluation of small pure functions over enumerated finite / boundary domains with symbolic values (engine/minieval.py; nothing is imported or run) (static)",
     },
     "C09": {
-        "text": "Path-sensitive must-authenticate analysis: under the assumption atom 'credentials carry an auth key', every function on the way from the v3 decode entry to the auth plug-in raises on every path on which the digest check did not return truthy, including paths that never reach it (cleared flag); exactness of the digest comparison, placeholder/truncation constants and argument provenance are decided.",
+        "text": "Path-sensitive must-authenticate analysis: under the assumption atom 'credentials carry an auth key', every function on the way from the v3 decode entry to the auth plug-in raises on every path on which the digest check did not return truthy, including paths that never reach it (cleared flag); exactness of the digest comparison, placeholder/truncation constants and argument provenance are decided. Nothing in process_incoming_message may evaluate the lazily decoded PDU on a path that has not passed the verifier call.",
         "note": "Trusted: ast, the analyser, resolution of the auth plug-in factory, RFC 3414 constants. Not decided: cryptographic strength of HMAC-96; per-bit corruption coverage follows from the decided clauses plus HMAC and is not re-proved.",
         "technique": "inter-procedural must-pass-through with three-valued path simulation under assumption atoms (static)",
     },
     "C10": {
-        "text": "Flag computation evaluated over the PDU class table against RFC 3411's confirmed class, provenance of every USM parameter from discovery / timing cache / credentials, encrypt-then-authenticate ordering and digest splice, auth plug-in table, RFC 3414 A.2 key-derivation constants (repetition factor evaluated for every password length 1..300), and canonical re-serialisation for the incoming digest: x690's length encoder is executed over its CFG at every length-form boundary. One genuine defect (length 127) is recorded as known finding.",
+        "text": "Flag computation evaluated over the PDU class table against RFC 3411's confirmed class, provenance of every USM parameter from discovery / timing cache / credentials, encrypt-then-authenticate ordering and digest splice, auth plug-in table, RFC 3414 A.2 key-derivation constants (repetition factor evaluated for every password length 1..300), and canonical re-serialisation for the incoming digest: x690's length encoder is executed over its CFG at every length-form boundary. One genuine defect (length 127) is recorded as known finding. The engine time fed to the USM is discovered + locally elapsed and discovery data come from the reply's security parameters (shared with C12-R3 / R7); the HMAC obligations of C09-R3 (localised key, message bytes, plug-in's digest method, 12 octets) and the encoder layout (C06-R8) are adopted.",
         "note": "Trusted: ast, the analyser, RFC 3411/3412/3414 tables. Not decided: hash arithmetic; every total message length numerically beyond the length-form boundaries.",
         "technique": "class-table evaluation + argument provenance + integer-state CFG execution of the length encoder + constant folding (static)",
     },
@@ -74,7 +74,7 @@ CHECKS = {
         "technique": "typestate (acquire/release) over CFG + integer-state CFG execution + value numbering (static)",
     },
     "C14": {
-        "text": "Effect analysis over every function of the package: each store, item store, mutating call and global/nonlocal write is classified by owner (local object, caller's object, client / MPM / security model / module / closure); every shared store must be one of 19 frozen, individually justified, operation-independent instances; lazy construction is test-and-store without an await; the timing cache is written and read without an await in between; one endpoint, protocol object and future per exchange. A positive fixture must be flagged on every run.",
+        "text": "Effect analysis over every function of the package: each store, item store, mutating call and global/nonlocal write is classified by owner (local object, caller's object, client / MPM / security model / module / closure); every shared store must be one of 19 frozen, individually justified, operation-independent instances; lazy construction is test-and-store without an await; the timing cache is written and read without an await in between; one endpoint, protocol object and future per exchange. A positive fixture must be flagged on every run. A memoising decorator on a coroutine function / generator, or on a factory that hands out an object with state (a plug-in instance), is a violation.",
         "note": "Trusted: ast, the analyser, asyncio's cooperative scheduling. Not decided: the asyncio scheduler itself; equality of the concurrent result with the solo result as a value (follows from non-interference).",
         "technique": "ownership / effect analysis with a frozen allow-list of shared locations + await-freedom between check and act (static)",
     },
@@ -89,7 +89,7 @@ CHECKS = {
         "technique": "linear normaliser + symbolic slice algebra + syntactic get-or-create idiom check + abstract evaluation of small pure functions over enumerated finite / boundary domains with symbolic values (engine/minieval.py; nothing is imported or run) (static)",
     },
     "C17": {
-        "text": "Counter32/Counter64 constructors executed over their CFG with a concrete integer at and around every region boundary, mask/threshold constants folded; numeric-kind inference forbids truncating an inexact float in the tick conversion and fixes the scale at 100 in both directions; IPv4 width and byte order; unsigned decode resolved through the MRO.",
+        "text": "Counter32/Counter64 constructors executed over their CFG with a concrete integer at and around every region boundary, mask/threshold constants folded; numeric-kind inference forbids truncating an inexact float in the tick conversion and fixes the scale at 100 in both directions; IPv4 width and byte order; unsigned decode resolved through the MRO. Every x690 subclass of the package with an all-default constructor is evaluated without arguments: the base constructor must receive the lazy-decoding sentinel (a plain default would replace every value received from an agent).",
         "note": "Trusted: ast, the analyser, RFC 2578 table. Boundary evaluation is exact for the piecewise mask/compare expressions used (regions are delimited by the folded constants). Not decided: x690's integer codec over full ranges; encode/decode round trip of each value.",
         "technique": "integer-state CFG execution at region boundaries + numeric-kind inference + constant folding + abstract evaluation of small pure functions over enumerated finite / boundary domains with symbolic values (engine/minieval.py; nothing is imported or run) (static)",
     },
